@@ -6,6 +6,13 @@ TECH = "bounded symbolic execution of the real dreye functions on z3-backed nump
 NOTE_COMMON = ("Reals, not floats. Shapes are bounded as stated in the evidence file (contents are fully symbolic). Compiled components are replaced by the contract "
                "stubs listed in DESIGN.md section 3 and in the evidence; a sat model is reported only after it reproduces on the unpatched code; unknown => exit 2.")
 CHECKS = {
+ "C07": ("real lsq_linear(model='poisson') and lsq_linear_excitation (and estimator.fit dispatch) on symbolic systems through the cvxpy shim: per row bounds, prediction identity, global "
+         "optimality of the documented objective (weighted Poisson NLL with ln uninterpreted; largest excitation difference via the proved rational form), feasibility, and the "
+         "in-gamut agreement reduced to closed lemmas that z3 proves (the two facts about ln used are stated)", "4 C07"),
+ "C08": ("real lsq_linear_underdetermined / fit_underdetermined on symbolic systems for every option ('l2','min','max','var', number, vector): reproduces within l2_eps, bounds, "
+         "optimal secondary goal over all in-bound reproducing intensities (contract instance at an arbitrary competitor), feasibility whenever the target is reproducible, documented guards", "4 C08"),
+ "C09": ("real lsq_linear_minimize / minimize_variance, both stages symbolic: first stage is the ordinary fit, fit quality <= best error + l2_eps, L1 window, minimal summed variance among "
+         "all such intensities, <= variance of the ordinary fit, reported variance == variance model (K**2 propagation, default Epsilon), stacked problem feasible incl. padded rows", "4 C09"),
  "C05": ("exhaustive grid of (n_samples, batch_size) incl. non-dividing, larger-than-n and 'full' for the gaussian, poisson and excitation models: the real batching code "
          "(padding, block-diagonal stacking, scatter) runs on symbolic contents through the cvxpy shim; z3 decides per row: no exception, the result row is its own block of the "
          "stacked solution, it is optimal for its own target/weights alone (separability instance of the stacked contract), and the stacked problem is feasible whenever each row's is", "4 C05"),
